@@ -359,3 +359,6 @@ PROPS["C20"] = _C20
 
 from props_C13 import ENTRY as _C13
 PROPS["C13"] = _C13
+
+from props_C15 import ENTRY as _C15
+PROPS["C15"] = _C15
